@@ -34,7 +34,7 @@ class Calls:
                      'is_none', 'hashable', 'callraises', 'call', 'fresh_obj', 'is_int_key', 'int_key', 'ite', 'attr',
                      'has_attr', 'catches', 'exc_is', 'iff', 'dynattr', 'truthy', 'key_at', 'idx_of', 'old', 'is_fresh',
                      'seq_of', 'card', 'same_elements', 'typeof', 'callv', 'callvraises', 'isinst_dyn', 'lt', 'unhashable_any',
-                     'mhas', 'mget', 'shas', 'without_key', 're_compile_raises', 're_compile', 'as_map', 'as_seq', 'as_set', 'sat', 'slen', 'mlen', 'methraises', 'methcall', 'gen_of', 'nth_where', 'count_where', 'ghost', 'zlen', 'isfinite', 'ret_make_converter', 'ret_into_data', 'ret', 'clsref', 'id_of', 'fnref', 'called', 'hash_of', 'forall_bools4'}
+                     'mhas', 'mget', 'shas', 'without_key', 're_compile_raises', 're_compile', 'as_map', 'as_seq', 'as_set', 'sat', 'slen', 'mlen', 'methraises', 'methcall', 'gen_of', 'nth_where', 'count_where', 'ghost', 'zlen', 'isfinite', 'ret_make_converter', 'ret_into_data', 'ret', 'clsref', 'id_of', 'fnref', 'called', 'hash_of', 'forall_bools4', 'methv', 'getattr'}
 
     # ------------------------------------------------------------------------------------
     def ev_Call(self, node, st):
@@ -105,7 +105,31 @@ class Calls:
             pass
         if isinstance(seq, VTuple) and not stars:
             return self.call_sv(f, list(seq.items), named, st, node)
+        if isinstance(f, VClass) and f.name in th.exc:
+            ev_ = th.fn('mkexc_v', th.Exc, th.Val, th.Val)(th.exc[f.name], self.toVal(seq, st) if seq is not None else th.NoneV)
+            return [(VExc(th.exc[f.name], ev_, f'raise:{f.name}'), st)]
         # opaque variadic application: deterministic in (fn, positional sequence, keyword mapping)
+        if isinstance(f, VBuiltin) and f.name.startswith('valmeth.') and f.recv is not None:
+            # method of an opaque value called with */** arguments, e.g. sig.bind(*args, **kwargs)
+            meth = f.name[8:]
+            rv = self.toVal(f.recv, st)
+            sv_ = self.toVal(seq, st) if seq is not None else th.NoneV
+            kv_ = self.toVal(stars[0], st) if stars else th.NoneV
+            res_ = th.fn('methv_' + meth, th.Val, th.Val, th.Val, th.Val)(rv, sv_, kv_)
+            out_ = self.mkval(res_, self.shape_of('.' + meth + '()'), fresh=True)
+            spec = self.VAL_METHODS.get(meth)
+            if self.spec_mode or spec is None:
+                return [(out_, st)]
+            cr_ = th.fn('methvraises_' + meth, th.Val, th.Val, th.Val, th.B)(rv, sv_, kv_)
+            s_ok = st.fork().add(z3.Not(cr_))
+            s_ex = st.fork().add(cr_)
+            if spec == 'any':
+                exc_ = VExc(th.fresh('exc_cls', th.Exc), th.fresh('excv'), f'{meth}:{self.src(node)}')
+            else:
+                ecv = th.fresh('exc_cls', th.Exc)
+                s_ex.add(z3.Or([ecv == th.exc[e] for e in spec]))
+                exc_ = VExc(ecv if len(spec) > 1 else th.exc[spec[0]], th.fresh('excv'), f'{meth}:{self.src(node)}')
+            return [(out_, s_ok), (Raised(exc_), s_ex)]
         fv = self.toVal(f, st)
         sv = self.toVal(seq, st) if seq is not None else th.NoneV
         kv = th.NoneV
@@ -420,6 +444,8 @@ class Calls:
         e = {}
         for n in names:
             if n not in env:
+                if n.startswith('final_'):
+                    raise ClauseNotApplicable(n)
                 raise OutOfSubset(f'contract clause refers to unknown name {n}')
             e[n] = env[n]
         for k2, v2 in env.items():
